@@ -43,6 +43,7 @@ static size_t     scale = 1;
 static char       tcp_url[64], ipc_url[128], ipc_path[100];
 static uint16_t   tcp_port;
 static long       walk = -1;
+static int        lenient, skip_walk; // failure-injection mode; the socket could not even be opened
 static int        step;
 static char       ob[8192];
 static size_t     on;
@@ -162,7 +163,7 @@ main(int argc, char **argv)
 	nng_init_params p;
 	char            line[512];
 	FILE           *in    = stdin;
-	uint64_t        live0 = 0;
+	uint64_t        live0 = 0, allocs0 = 0;
 
 	setvbuf(stdout, NULL, _IOLBF, 0);
 	memset(&p, 0, sizeof(p));
@@ -216,6 +217,8 @@ main(int argc, char **argv)
 			walk = atol(a1);
 			step = 0;
 			memset(cn, 0, sizeof(cn));
+			lenient = skip_walk = 0;
+			allocs0 = acct_total_allocs();
 			live0 = acct_live_blocks();
 			acct_dump_since(acct_total_allocs());
 			printf("B %ld\n", walk);
@@ -240,6 +243,8 @@ main(int argc, char **argv)
 				nanosleep(&ts, NULL);
 			}
 			nni_verif_io_max = (size_t) INT32_MAX;
+			printf("A %ld {\"allocs\":%llu,\"fired\":%d}\n", walk, (unsigned long long) (acct_total_allocs() - allocs0), acct_fail_fired());
+			acct_fail_at(0);
 			printf("X %ld {\"fin\":0,\"leak\":%lld,\"mism\":%llu,\"badfree\":%llu}\n", walk,
 			    (long long) acct_live_blocks() - (long long) live0, (unsigned long long) acct_size_mismatches(),
 			    (unsigned long long) acct_bad_frees());
@@ -249,6 +254,16 @@ main(int argc, char **argv)
 			fflush(stdout);
 			continue;
 		}
+		if (!strcmp(cmd, "failat")) {
+			// allocation-failure injection (C20): the k-th allocation from now fails, in whatever thread it happens;
+			// from here on results are not compared, waits are short, only crash / hang / leak count
+			lenient = 1;
+			acct_fail_at((uint64_t) atol(a1));
+			continue;
+		}
+		if (skip_walk) {
+			continue;
+		}
 		if (!strcmp(cmd, "open")) {
 			nng_listener l;
 			int          bport = 0;
@@ -256,6 +271,10 @@ main(int argc, char **argv)
 			is_push = !strcmp(a1, "push");
 			scale   = (size_t) atol(a3);
 			if ((rv = is_push ? nng_push0_open(&sut) : nng_pull0_open(&sut)) != 0) {
+				if (lenient) {
+					skip_walk = 1;
+					continue;
+				}
 				return 3;
 			}
 			sut_open = 1;
@@ -263,6 +282,10 @@ main(int argc, char **argv)
 			nng_socket_set_ms(sut, NNG_OPT_SENDTIMEO, 5000);
 			if ((rv = nng_listener_create(&l, sut, "tcp://127.0.0.1:0")) != 0 || (rv = nng_listener_start(l, 0)) != 0 ||
 			    (rv = nng_listener_get_int(l, NNG_OPT_BOUND_PORT, &bport)) != 0) {
+				if (lenient) {
+					skip_walk = 1;
+					continue;
+				}
 				fprintf(stderr, "driver: tcp listen: %s\n", nng_strerror(rv));
 				return 3;
 			}
@@ -272,6 +295,10 @@ main(int argc, char **argv)
 			snprintf(ipc_url, sizeof(ipc_url), "ipc://%s", ipc_path);
 			unlink(ipc_path);
 			if ((rv = nng_listener_create(&l, sut, ipc_url)) != 0 || (rv = nng_listener_start(l, 0)) != 0) {
+				if (lenient) {
+					skip_walk = 1;
+					continue;
+				}
 				fprintf(stderr, "driver: ipc listen: %s\n", nng_strerror(rv));
 				return 3;
 			}
@@ -302,7 +329,7 @@ main(int argc, char **argv)
 			cn[c].fd = rv == 0 ? fd : -1;
 			o("\"out\":{\"rv\":\"%s\"}", rv == 0 ? "ok" : strerror(errno));
 		} else if (!strcmp(cmd, "wr")) {
-			int       c = atoi(a1), expn = atoi(a5), expclosed = atoi(a6), first = 1, got = 0;
+			int       c = atoi(a1), expn = lenient ? 0 : atoi(a5), expclosed = lenient ? 0 : atoi(a6), first = 1, got = 0;
 			size_t    cls = (size_t) atol(a3), len = cls * scale, hl, nb = 0;
 			uint8_t   seed = (uint8_t) atoi(a4);
 			uint8_t  *buf  = malloc(len + 32);
@@ -385,9 +412,14 @@ main(int argc, char **argv)
 			uint8_t   seed = (uint8_t) atoi(a3);
 			nng_msg  *m;
 			uint8_t  *buf = malloc(want + 16);
-			uint64_t  end = now_ms() + 8000;
+			uint64_t  end = now_ms() + (lenient ? 300 : 8000);
 			int       rv, ok = 1;
-			nng_msg_alloc(&m, len);
+			if (nng_msg_alloc(&m, len) != 0) {
+				free(buf);
+				o("\"out\":{\"rv\":\"enomem\"}");
+				obs_emit();
+				continue;
+			}
 			for (size_t i = 0; i < len; i++) {
 				((uint8_t *) nng_msg_body(m))[i] = (uint8_t) (seed + 7 * i);
 			}
